@@ -28,6 +28,16 @@ func verifStr(name string, maxLen int, quoted bool) string {
 	return s
 }
 
+func verifHexStr(name string, maxLen int) string {
+	n := verifChoice(name+"len", maxLen+1)
+	s := verifSymString(name, n)
+	for i := 0; i < len(s); i++ {
+		c := s[i]
+		verifAssume((c >= '0' && c <= '9') || (c >= 'a' && c <= 'f') || (c >= 'A' && c <= 'F'))
+	}
+	return s
+}
+
 func verifDurEq(a, b time.Duration) bool {
 	d := a - b
 	return d > -10*time.Microsecond && d < 10*time.Microsecond
@@ -126,6 +136,11 @@ func verifMediaEq(tag string, a, b *Media) {
 func verifMediaRoundTrip(p *Media) {
 	txt, err := p.Marshal()
 	verifAssert("C14", "marshal-succeeds", err == nil)
+	if verifProp("C15") {
+		verifGrammarWhy = ""
+		ok := verifGrammar(string(txt), true)
+		verifAssert("C15", "marshal-output-grammatical "+verifGrammarWhy, ok)
+	}
 	var q Media
 	err = q.Unmarshal(txt)
 	verifAssert("C14", "unmarshal-of-marshal-succeeds", err == nil)
@@ -213,6 +228,8 @@ func VerifH_C14_mediaHeader() {
 				v := []time.Duration{12 * time.Second, 36*time.Second + 10*time.Microsecond}[verifChoice("csu", 2)]
 				sc.CanSkipUntil = &v
 			}
+			// a server-control tag without any attribute is not a meaningful value
+			verifAssume(sc.CanBlockReload || sc.PartHoldBack != nil || sc.CanSkipUntil != nil)
 			p.ServerControl = sc
 		}
 		if verifBool("partinfpresent") {
@@ -253,7 +270,7 @@ func VerifH_C14_segment() {
 			s.DateTime = &t
 		}
 	case 3:
-		k1 := &MediaKey{Method: MediaKeyMethodAES128, URI: "k" + verifStr("keyuri", 2, true), IV: "0x" + verifStr("iv", 2, false)}
+		k1 := &MediaKey{Method: MediaKeyMethodAES128, URI: "k" + verifStr("keyuri", 2, true), IV: "0x1" + verifHexStr("iv", 2)}
 		if verifBool("keyformat") {
 			k1.KeyFormat = "f" + verifStr("kf", 1, true)
 			k1.KeyFormatVersions = "1/2"
@@ -352,6 +369,11 @@ func verifMultiEq(tag string, a, b *Multivariant) {
 func verifMultiRoundTrip(p *Multivariant) {
 	txt, err := p.Marshal()
 	verifAssert("C14", "marshal-succeeds", err == nil)
+	if verifProp("C15") {
+		verifGrammarWhy = ""
+		ok := verifGrammar(string(txt), false)
+		verifAssert("C15", "marshal-output-grammatical "+verifGrammarWhy, ok)
+	}
 	var q Multivariant
 	err = q.Unmarshal(txt)
 	verifAssert("C14", "unmarshal-of-marshal-succeeds", err == nil)
@@ -415,7 +437,7 @@ func VerifH_C14_multivariant() {
 		v.ClosedCaptions = verifStr("cc", 1, true)
 	case 5:
 		r := &MultivariantRendition{Type: MultivariantRenditionTypeAudio, GroupID: "g" + verifStr("group", 1, true)}
-		r.Name = verifStr("name", 2, true)
+		r.Name = "n" + verifStr("name", 2, true) // NAME is a required attribute
 		r.Language = verifStr("lang", 1, true)
 		p.Renditions = []*MultivariantRendition{r}
 		v.Audio = "g"
